@@ -53,7 +53,7 @@ func decodeTCP(b []byte) (TCPHeader, error) {
 		SrcPort:    int(b[0])<<8 | int(b[1]),
 		DstPort:    int(b[2])<<8 | int(b[3]),
 		DataOffset: int(b[12]) >> 4,
-		Reserved:   0,
+		Reserved:   int(b[12]>>1) & 0x7,
 		Flags:      ((int(b[12])<<8 | int(b[13])) & 0x01ff),
 	}, nil
 }
